@@ -409,12 +409,20 @@ def run_lines_guarded(exe, cases, per_case_timeout=10.0):
 
     res = {}
     proc = None
+    hangs = 0
 
     def start():
         return subprocess.Popen([exe], stdin=subprocess.PIPE, stdout=subprocess.PIPE, stderr=subprocess.DEVNULL,
                                 text=True, bufsize=1, env=env_offline())
 
     for c in cases:
+        if hangs >= 40:
+            # the executable hangs on one input after the other: that is reported; the remaining cases are not run
+            res[c["id"]] = {"not_run": "40 inputs made the executable hang"}
+            continue
+        if hangs == 8:
+            # hangs are established (and will be reported): do not spend the full deadline on every further one
+            per_case_timeout = min(per_case_timeout, 1.5)
         if proc is None or proc.poll() is not None:
             proc = start()
         try:
@@ -430,6 +438,7 @@ def run_lines_guarded(exe, cases, per_case_timeout=10.0):
             proc.wait()
             proc = None
             res[c["id"]] = {"hang": True}
+            hangs += 1
             continue
         line = proc.stdout.readline()
         if not line:
